@@ -232,3 +232,19 @@ where
         *x = (*z) / (*y);
     }
 }
+
+// ---------------------------------------------
+// verification hooks (read-only accessors)
+// ---------------------------------------------
+#[cfg(clarabel_verif)]
+impl<T> NonnegativeCone<T>
+where
+    T: FloatT,
+{
+    pub fn verif_w(&self) -> &[T] {
+        &self.w
+    }
+    pub fn verif_lambda(&self) -> &[T] {
+        &self.λ
+    }
+}
